@@ -76,6 +76,13 @@ func TestMain(m *testing.M) {
 		}
 		return checkParallel(c)
 	})
+	pbt.RegisterReplay("tx_concurrent", func(raw json.RawMessage) error {
+		var c concCase
+		if err := json.Unmarshal(raw, &c); err != nil {
+			return err
+		}
+		return checkConcurrent(c)
+	})
 	pbt.RegisterReplay("hostile_counts", func(raw json.RawMessage) error {
 		var c byteCase
 		if err := json.Unmarshal(raw, &c); err != nil {
@@ -953,14 +960,21 @@ func raceBinary() string {
 type errInfra struct{ error }
 
 func runRaceHelper(c blocklib.ParCase) error {
+	if c.RaceNTx <= 0 {
+		return nil
+	}
+	line, _ := json.Marshal(c)
+	return raceHelper(line, fmt.Sprintf("NewBlock+BuildTxList on a block of %d transactions", c.RaceNTx))
+}
+
+func raceHelper(line []byte, what string) error {
 	bin := raceBinary()
-	if bin == "" || c.RaceNTx <= 0 {
+	if bin == "" {
 		return nil
 	}
 	if _, err := os.Stat(bin); err != nil {
 		return errInfra{fmt.Errorf("race helper %s is missing: %v", bin, err)}
 	}
-	line, _ := json.Marshal(c)
 	cmd := exec.Command(bin)
 	cmd.Env = append(os.Environ(), "GORACE=halt_on_error=1 exitcode=66", "GOMAXPROCS=4")
 	cmd.Stdin = bytes.NewReader(append(line, '\n'))
@@ -968,7 +982,7 @@ func runRaceHelper(c blocklib.ParCase) error {
 	cmd.Stdout, cmd.Stderr = &so, &se
 	runErr := cmd.Run()
 	if strings.Contains(se.String(), "WARNING: DATA RACE") {
-		return fmt.Errorf("data race reported by the Go race detector inside NewBlock+BuildTxList on a block of %d transactions (what the block reports depends on the schedule): %s", c.RaceNTx, raceFrames(se.String()))
+		return fmt.Errorf("data race reported by the Go race detector inside %s (what is reported depends on the schedule): %s", what, raceFrames(se.String()))
 	}
 	out := strings.TrimSpace(so.String())
 	if strings.HasPrefix(out, "FAIL ") {
@@ -1044,6 +1058,81 @@ func TestBlockParallel(t *testing.T) {
 		}
 	})
 }
+
+// ---------------------------------------------------------------------------------------------
+// transactions decoded and hashed by several goroutines at once (what the per-connection goroutines do in
+// ParseTxNet: btc.NewTx + Tx.SetHash on their own transactions), with a simultaneous start; some workers also
+// decode their own multi-pack block.  All reference values are computed sequentially beforehand.  The same kind of
+// case (smaller) also runs inside the race-detector build.
+
+type concCase struct {
+	Main blocklib.ConcCase `json:"main"` // in-process
+	Race blocklib.ConcCase `json:"race"` // inside the race-detector helper (Workers == 0: none)
+}
+
+func checkConcurrent(c concCase) error {
+	st, err := blocklib.RunConcurrent(c.Main)
+	pbt.AddExtra("concurrent_sethash_calls", st.SetHashCalls)
+	pbt.AddExtra("concurrent_sethash_calls_witness", st.WitnessCalls)
+	pbt.AddExtra("concurrent_block_decodings", st.BlockDecodes)
+	if err != nil {
+		return err
+	}
+	if c.Race.Workers > 0 {
+		line, _ := json.Marshal(c.Race)
+		return raceHelper(append([]byte("CONC "), line...), fmt.Sprintf("NewTx+SetHash (+BuildTxList) called from %d goroutines on their own transactions", c.Race.Workers))
+	}
+	return nil
+}
+
+var concSizeSets = [][]int{{200, 2000, 20000, 60000}, {60000, 93000}, {20000, 40000}, {300, 93000}, {250}}
+
+func TestTxConcurrent(t *testing.T) {
+	pbt.Check(t, pbt.Cfg{Name: "tx_concurrent", Quick: 48, Thorough: 1600}, func(r *pbt.Run) {
+		var c concCase
+		m := &c.Main
+		m.Seed = rapid.Uint64().Draw(r.T, "seed")
+		m.Workers = rapid.SampledFrom([]int{16, 8, 4, 2, 3, 32, 64, 128}).Draw(r.T, "workers")
+		m.TxPerWorker = rapid.IntRange(1, 3).Draw(r.T, "txper")
+		m.WitPercent = rapid.SampledFrom([]int{100, 90, 100, 60}).Draw(r.T, "witpercent")
+		m.Sizes = concSizeSets[rapid.IntRange(0, len(concSizeSets)-1).Draw(r.T, "sizes")]
+		m.Procs = rapid.SampledFrom([]int{16, 4, 2, 16}).Draw(r.T, "procs")
+		avg := 0
+		for _, s := range m.Sizes {
+			avg += s
+		}
+		avg /= len(m.Sizes)
+		m.Rounds = max(30, min(400, concByteBudget/(m.Workers*m.TxPerWorker*avg)))
+		if rapid.IntRange(0, 2).Draw(r.T, "blocks") == 0 {
+			m.BlockPacks = rapid.IntRange(3, 12).Draw(r.T, "blockpacks")
+			m.BlockEvery = max(1, m.Rounds/8)
+		}
+		if raceBinary() != "" {
+			c.Race = blocklib.ConcCase{Seed: m.Seed + 1, Workers: rapid.IntRange(2, 6).Draw(r.T, "raceworkers"), Rounds: 5, TxPerWorker: 2, WitPercent: 100,
+				Sizes: []int{300, 3000, 20000}, BlockPacks: 3, BlockEvery: 2}
+			r.Class("race_detector_run")
+		}
+		r.Case(c)
+		r.Class("witness txs hashed concurrently")
+		r.Class(fmt.Sprintf("workers=%d", m.Workers))
+		if m.Sizes[len(m.Sizes)-1] >= 60000 {
+			r.Class("large txs (>= 60 KB)")
+		}
+		if m.BlockPacks > 0 {
+			r.Class("blocks decoded concurrently")
+		}
+		r.NonTrivial()
+		err := checkConcurrent(c)
+		if _, infra := err.(errInfra); infra {
+			r.T.Fatalf("%v", err)
+		}
+		if err != nil {
+			r.Failf("%v", err)
+		}
+	})
+}
+
+const concByteBudget = 150 << 20
 
 // ---------------------------------------------------------------------------------------------
 // hostile counts: every CompactSize field of a reference encoding replaced by huge values, decoded
